@@ -6,6 +6,26 @@ fix_greatest) about GristModel/Treeview.lean.
 Tie: treeview.fix_indents (real code) vs Grist.Treeview.fixIndents on identical inputs
      (exhaustive small scope + random), adjustments compared as lists.
 Search (direct oracle on the real code): apply the returned fixes and check the property's clauses.
+
+Engine level (the CALLER of fix_indents, useractions._removePageRecords: which page records it hands
+over and in which order).  `engine_reordered` builds page trees whose pagePos order differs from the
+row-id order of _grist_Pages (pages moved with UpdateRecord / BulkUpdateRecord on pagePos and
+indentation, pages added out of order, pages moved under other parents), then removes pages
+(RemoveRecord / BulkRemoveRecord on _grist_Pages, RemoveView, Remove/BulkRemoveRecord on
+_grist_Views, RemoveTable) and evaluates the property's clauses on the outcome read back from the
+engine: "the list of pages" is the list of _grist_Pages records in pagePos order (the order the page
+tree is displayed in), the removed set is the set of records that disappeared.  Interpretation:
+* the clauses are demanded only of bundles that actually remove at least one page (otherwise the
+  engine does not run the fix and the indentations must stay as they are);
+* a removal must not reorder the remaining pages nor touch their pagePos / viewRef;
+* which pages have to go: the requested ones for page-level removals; for view/table-level
+  removals exactly the pages whose view no longer exists afterwards (and the requested views / the
+  views that showed only the removed table must be gone);
+* a bundle of two page removals is judged against the reference applied twice in sequence.
+Fixed witnesses carry literal expected outcomes.  The Lean model is tied at this level too (cheaply:
+the existing driver op answers `applyFixes` for the pagePos-ordered list; the engine's outcome must
+equal it) - sorting by pagePos and the record plumbing themselves are NOT modelled in Lean; they are
+judged by the direct oracle only.
 """
 import itertools
 import collections
@@ -97,8 +117,23 @@ def run(ck):
   import treeview
   ck.rule = ("exhaustive over <=5 (quick) or <=6 (thorough) pages x indent<=3/4 x deletion subsets (sub-sampled at the largest size in quick) "
              "plus random lists <=30 pages; non-trivial = at least one fix returned AND at least one page removed; "
-             "distinct by (items, deleted)")
-  ck.assumptions = ["page ids are distinct (metadata row ids)", "indentations are non-negative integers"]
+             "distinct by (items, deleted). Engine level (caller _removePageRecords): 7 fixed witnesses with literal "
+             "outcomes + a page-only document over every permutation of 2-3 (sampled: 4; thorough also 5) pages x "
+             "indentation lists x non-empty removal subsets (order made by adding out of order or by moving) + random "
+             "documents (30 quick / 500 thorough) whose pages are moved / re-indented / re-parented and then removed by "
+             "RemoveRecord, BulkRemoveRecord, two removals in one bundle, RemoveView, Remove/BulkRemoveRecord on "
+             "_grist_Views, RemoveTable; non-trivial there = a page was removed AND a remaining page changed level; "
+             "distinct by (pages in pagePos order, removed set)")
+  ck.assumptions = ["page ids are distinct (metadata row ids)", "indentations are non-negative integers",
+                    "engine level: 'the list of pages' = the _grist_Pages records read in pagePos order (positions "
+                    "distinct; a state with tied positions is skipped and counted), the removed set = the records that "
+                    "disappeared; the clauses are demanded only of bundles that remove at least one page",
+                    "engine level: the situations with reordered pages (pagePos order != row-id order), i.e. WHICH "
+                    "records _removePageRecords hands to fix_indents and in WHICH order, are judged by the direct oracle "
+                    "(property clauses on the engine's outcome, literal witness outcomes); sorting by pagePos, "
+                    "filter_records, docmodel.remove and the view/table cascades are NOT modelled in Lean - the model "
+                    "tie at this level only compares the engine's outcome with Grist.Treeview.applyFixes run on the "
+                    "pagePos-ordered list extracted by the harness (single page removal per bundle)"]
   ck.lean(["GristProps.C36"])
   allc = list(cases(ck))
   ops = [{"m": "treeview", "items": [list(p) for p in items], "deleted": deleted} for items, deleted in allc]
@@ -131,11 +166,465 @@ def engine_level(ck):
   except ImportError:
     return
   engine_driver.c36_pages(ck, valid_tree)
+  engine_reordered(ck, engine_driver)
+
+
+# ----------------------------------------------------------------------------- engine level: the caller
+COL = [{"id": "a", "type": "Int", "isFormula": False, "formula": ""}]
+INF = float("inf")
+
+
+def reference(items, deleted):
+  """Reference reading of the property (DESIGN App. B) as a list [(id, level)] of the remaining
+  pages: a page keeps its level unless it lies deeper than allowed; a removed page hands its own
+  (capped) level on, a remaining page its level + 1."""
+  allowed = 0
+  out = []
+  for (i, ind) in items:
+    lvl = min(allowed, ind)
+    if i in deleted:
+      allowed = lvl
+    else:
+      out.append((i, lvl))
+      allowed = lvl + 1
+  return out
+
+
+def page_rows(doc):
+  """_grist_Pages records in display order (pagePos; an unset position sorts last)."""
+  rows = doc.meta("_grist_Pages")
+  return sorted(rows, key=lambda p: (INF if p["pagePos"] is None else p["pagePos"], p["id"]))
+
+
+def short(rows):
+  return [(p["id"], p["indentation"]) for p in rows]
+
+
+def engine_oracle(before, after, req, meta_before, views_after):
+  """The property's clauses (plus the engine-level reading in the module docstring) on what the
+  engine did.  Returns (None | (signature, detail), removed set)."""
+  old = dict((p["id"], p) for p in before)
+  b_ids = [p["id"] for p in before]
+  a_ids = [p["id"] for p in after]
+  removed = set(b_ids) - set(a_ids)
+  extra = [i for i in a_ids if i not in old]
+  if extra:
+    return ("engine: page record appeared during a removal", "ids %r" % (extra,)), removed
+  # which pages had to go
+  if "steps" in req:
+    expected = set()
+    for st in req["steps"]:
+      expected |= set(st)
+  else:
+    must_views = set(req.get("views", ()))
+    if "table" in req:
+      tref = [t["id"] for t in meta_before["tables"] if t["tableId"] == req["table"]]
+      by_view = {}
+      for sec in meta_before["sections"]:
+        if sec["parentId"]:
+          by_view.setdefault(sec["parentId"], []).append(sec["tableRef"])
+      must_views |= set(v for v, trs in by_view.items() if tref and all(t == tref[0] for t in trs))
+    left = sorted(must_views & views_after)
+    if left:
+      return ("engine: view that had to be removed still exists", "views %r" % (left,)), removed
+    expected = set(p["id"] for p in before
+                   if p["viewRef"] in meta_before["views"] and p["viewRef"] not in views_after)
+  if removed != expected:
+    return ("engine: wrong set of page records removed",
+            "expected %r removed %r" % (sorted(expected), sorted(removed))), removed
+  if a_ids != [i for i in b_ids if i not in removed]:
+    return ("engine: remaining pages reordered by a removal", "before %r after %r" % (b_ids, a_ids)), removed
+  for p in after:
+    o = old[p["id"]]
+    if p["pagePos"] != o["pagePos"] or p["viewRef"] != o["viewRef"]:
+      return ("engine: removal changed pagePos/viewRef of a remaining page", "%r -> %r" % (o, p)), removed
+  items = short(before)
+  new = dict(short(after))
+  if not removed:
+    if short(after) != items:
+      return ("engine: indentation changed although no page was removed",
+              "before %r after %r" % (items, short(after))), removed
+    return None, removed
+  reordered = b_ids != sorted(b_ids)
+  tag = "engine, pagePos order %s row-id order: " % ("differs from" if reordered else "equals")
+  if len(req.get("steps", [0])) == 1:
+    adj = [(i, new[i]) for i in a_ids if new[i] != old[i]["indentation"]]
+    bad = oracle(items, removed, adj)
+    if bad:
+      return (tag + bad[0], bad[1]), removed
+    return None, removed
+  # several page removals in one bundle: validity, never deeper, the reference applied in sequence
+  if not valid_tree([new[i] for i in a_ids]):
+    return (tag + "remaining pages are not a valid tree", "levels %r" % ([new[i] for i in a_ids],)), removed
+  for i in a_ids:
+    if new[i] > old[i]["indentation"]:
+      return (tag + "page made deeper by a removal", "id %r %r->%r" % (i, old[i]["indentation"], new[i])), removed
+  cur = items
+  for st in req["steps"]:
+    cur = reference(cur, set(st))
+  if cur != short(after):
+    return (tag + "set of changed pages differs from the violating pages (removals applied in sequence)",
+            "expected %r got %r" % (cur, short(after))), removed
+  return None, removed
+
+
+class EngineRun(object):
+  """Applies removal bundles to live engines, judges each with the direct oracle and collects the
+  (pagePos-ordered items, removed set, outcome) triples for the model tie."""
+  def __init__(self, ck, ed):
+    self.ck = ck
+    self.ed = ed
+    self.tie = []     # (items, removed, after_levels, replay)
+    self.setup_rejected = None
+
+  def setup(self, doc, bundle):
+    r = doc.apply(bundle)
+    if not r.ok:
+      self.ck.count("eng2_setup_rejected")
+      if self.setup_rejected is None:
+        self.setup_rejected = (bundle, r.error)
+    return r.ok
+
+  def judge(self, doc, bundle, req, family, kind, prefix=None, expect=None):
+    """`prefix`: the bundles that rebuild the state from a fresh Doc (default: the doc's history)."""
+    ck = self.ck
+    before = page_rows(doc)
+    meta_before = {"tables": doc.meta("_grist_Tables"), "sections": doc.meta("_grist_Views_section"),
+                   "views": set(v["id"] for v in doc.meta("_grist_Views"))}
+    bundles = (list(doc.history) if prefix is None else list(prefix)) + [bundle]
+    rp = {"engine": {"bundles": bundles, "req": req, "kind": kind, "expect": expect}}
+    items = short(before)
+    pos = [p["pagePos"] for p in before]
+    if len(set(pos)) != len(pos) or any(not isinstance(n, int) or isinstance(n, bool) or n < 0 for _, n in items):
+      ck.count("eng2_skipped_ambiguous_order_or_bad_level")   # not a 'list of pages with indentations'
+      doc.apply(bundle)
+      return None
+    r = doc.apply(bundle)
+    ck.evaluated()
+    ck.count("eng2_removal_bundles")
+    ck.count("eng2_family_" + family)
+    ck.count("eng2_kind_" + kind)
+    if not r.ok:
+      ck.violation("engine: well-formed page removal rejected (%s)" % (r.error[0],),
+                   "%s on pages %r: %s" % (bundle, items, r.error[1]), rp)
+      return None
+    after = page_rows(doc)
+    views_after = set(v["id"] for v in doc.meta("_grist_Views"))
+    bad, removed = engine_oracle(before, after, req, meta_before, views_after)
+    if bad is None and expect is not None and short(after) != [tuple(x) for x in expect]:
+      bad = ("engine: fixed witness outcome differs from its literal expectation",
+             "expected %r got %r" % (expect, short(after)))
+    ids = [i for i, _ in items]
+    if removed:
+      ck.count("eng2_removals_with_pages_removed")
+      if ids != sorted(ids):
+        ck.count("eng2_pagepos_order_differs_from_rowid_order")
+        if len(req.get("steps", [0])) == 1 and \
+           sorted(reference(items, removed)) != sorted(reference(sorted(items), removed)):
+          ck.count("eng2_order_sensitive_removals")   # row-id order would give another outcome
+      if len(removed) > 1:
+        ck.count("eng2_several_pages_removed")
+      if not valid_tree([n for _, n in items]):
+        ck.count("eng2_invalid_tree_before")
+      if any(dict(items)[p["id"]] != p["indentation"] for p in after):
+        ck.count("eng2_removals_with_promotion")
+        ck.nontrivial_case(["engine", items, sorted(removed)])
+        ck.sample({"engine_level": kind, "pages_in_pagePos_order": items, "removed": sorted(removed),
+                   "after": short(after)}, limit=6)
+    else:
+      ck.count("eng2_no_page_removed")
+    if bad:
+      ck.violation(bad[0], "%s %r; pages (pagePos order) before %r after %r"
+                   % (bad[1], bundle, items, short(after)), rp)
+    elif removed and len(req.get("steps", [0])) == 1:
+      self.tie.append((items, sorted(removed), [p["indentation"] for p in after], rp))
+    return after
+
+  def tie_model(self):
+    ck = self.ck
+    ops = [{"m": "treeview", "items": [list(p) for p in items], "deleted": deleted}
+           for items, deleted, _, _ in self.tie]
+    mism = None
+    for (items, deleted, levels, rp), mo in zip(self.tie, ck.driver(ops)):
+      ck.count("eng2_model_tie_compared")
+      if "error" in mo or mo.get("final") != levels:
+        ck.count("eng2_model_impl_disagreements")
+        if mism is None:
+          mism = {"pages_in_pagePos_order": items, "removed": deleted, "engine": levels, "model": mo,
+                  "engine_replay": rp["engine"]}
+    if mism and not ck.has_impl_violation():
+      ck.broken("correspondence _removePageRecords outcome vs Grist.Treeview.applyFixes on the pagePos-ordered pages",
+                "model and engine differ and the property's clauses hold on all explored inputs", mism)
+
+
+def arrange(run, doc, order, levels):
+  """Bring the pages into `order` (each page in turn is moved to the end), then set the levels."""
+  for i in order:
+    run.setup(doc, [["UpdateRecord", "_grist_Pages", i, {"pagePos": None}]])
+  run.setup(doc, [["BulkUpdateRecord", "_grist_Pages", list(order), {"indentation": list(levels)}]])
+
+
+def witnesses(run):
+  """Fixed scenarios with literal expected outcomes (pages as id:level in pagePos order)."""
+  from gx.common import Infra
+  ed = run.ed
+
+  def tables(n):
+    doc = ed.Doc()
+    for i in range(n):
+      run.setup(doc, [["AddTable", "P%d" % i, COL]])
+    return doc
+
+  def need(doc, want, name):
+    got = short(page_rows(doc))
+    if got != want:
+      raise Infra("C36 witness %s could not be set up: pages %r, wanted %r" % (name, got, want))
+
+  # W1-W3: the last-added page dragged up between pages 2 and 3 as a child of page 2, then page 2
+  # goes away (as a page record / with its view / with its table): page 4 is promoted to level 1
+  for kind, bundle, req in (
+      ("RemoveRecord", [["RemoveRecord", "_grist_Pages", 2]], {"steps": [[2]]}),
+      ("RemoveView", [["RemoveView", 2]], {"views": [2]}),
+      ("RemoveTable", [["RemoveTable", "P1"]], {"table": "P1"})):
+    doc = tables(4)
+    run.setup(doc, [["BulkUpdateRecord", "_grist_Pages", [2, 3, 4], {"indentation": [1, 1, 2]}]])
+    pos = dict((p["id"], p["pagePos"]) for p in page_rows(doc))
+    run.setup(doc, [["UpdateRecord", "_grist_Pages", 4, {"pagePos": (pos[2] + pos[3]) / 2.0}]])
+    need(doc, [(1, 0), (2, 1), (4, 2), (3, 1)], "W1/" + kind)
+    run.judge(doc, bundle, req, "witness", kind, expect=[[1, 0], [4, 1], [3, 1]])
+  # W4: a page added out of order (explicit pagePos between pages 1 and 2), made the parent of
+  # page 2, then removed
+  doc = tables(3)
+  run.setup(doc, [["AddRecord", "_grist_Pages", None, {"viewRef": 0, "pagePos": 2.0, "indentation": 1}]])
+  run.setup(doc, [["BulkUpdateRecord", "_grist_Pages", [2, 3], {"indentation": [2, 1]}]])
+  need(doc, [(1, 0), (4, 1), (2, 2), (3, 1)], "W4")
+  run.judge(doc, [["RemoveRecord", "_grist_Pages", 4]], {"steps": [[4]]}, "witness", "RemoveRecord",
+            expect=[[1, 0], [2, 1], [3, 1]])
+  # W5: five pages fully reordered, two of them (a parent and its first child) removed at once
+  doc = tables(5)
+  arrange(run, doc, [3, 1, 4, 2, 5], [0, 1, 2, 2, 0])
+  need(doc, [(3, 0), (1, 1), (4, 2), (2, 2), (5, 0)], "W5")
+  run.judge(doc, [["BulkRemoveRecord", "_grist_Pages", [4, 1]]], {"steps": [[4, 1]]}, "witness",
+            "BulkRemoveRecord", expect=[[3, 0], [2, 1], [5, 0]])
+  # W6: reversed page order, the (displayed) first page removed: its children move up
+  doc = tables(4)
+  arrange(run, doc, [4, 3, 2, 1], [0, 1, 2, 1])
+  need(doc, [(4, 0), (3, 1), (2, 2), (1, 1)], "W6")
+  run.judge(doc, [["RemoveView", 4]], {"views": [4]}, "witness", "RemoveView",
+            expect=[[3, 0], [2, 1], [1, 1]])
+  # W7: a table shown on two pages that are not adjacent in the reordered tree
+  doc = tables(3)
+  run.setup(doc, [["AddView", "P0", "raw_data", "again"]])          # view 4 / page 4, also shows P0
+  arrange(run, doc, [2, 1, 3, 4], [0, 1, 2, 1])
+  run.setup(doc, [["UpdateRecord", "_grist_Pages", 3, {"pagePos": None, "indentation": 2}]])
+  need(doc, [(2, 0), (1, 1), (4, 1), (3, 2)], "W7")
+  run.judge(doc, [["RemoveTable", "P0"]], {"table": "P0"}, "witness", "RemoveTable",
+            expect=[[2, 0], [3, 1]])
+
+
+def small_scope(run):
+  """Page-only document (page records without views): every permutation of <=3 (sampled: 4, thorough
+  also 5) pages x indentation lists x non-empty removal subsets; the order is established either
+  by adding the pages out of order (explicit pagePos) or by moving them afterwards."""
+  ck, rng = run.ck, run.ck.rng
+  doc = run.ed.Doc()
+  quick = ck.tier == "quick"
+  for n in ((2, 3, 4) if quick else (2, 3, 4, 5)):
+    ids = list(range(1, n + 1))
+    for perm in itertools.permutations(ids):
+      for inds in itertools.product(range(n), repeat=n):
+        valid = valid_tree(inds)
+        if n == 4 and not valid and rng.random() > (0.02 if quick else 0.3):
+          continue
+        if n == 5 and rng.random() > (0.08 if valid else 0.004):
+          continue
+        for mask in range(1, 1 << n):
+          if n == 4 and rng.random() > (0.2 if quick else 1.0):
+            continue
+          if n == 5 and rng.random() > 0.3:
+            continue
+          gone = [perm[k] for k in range(n) if mask >> k & 1]
+          rng.shuffle(gone)
+          level = dict(zip(perm, inds))
+          rank = dict((i, float(k + 1)) for k, i in enumerate(perm))
+          prefix = []
+          cur = [p["id"] for p in doc.meta("_grist_Pages")]
+          if cur:
+            run.setup(doc, [["BulkRemoveRecord", "_grist_Pages", cur]])
+          if rng.random() < 0.5:
+            prefix.append([["BulkAddRecord", "_grist_Pages", ids,
+                            {"viewRef": [0] * n, "pagePos": [rank[i] for i in ids],
+                             "indentation": [level[i] for i in ids]}]])
+            ck.count("eng2_order_by_adding_out_of_order")
+          else:
+            prefix.append([["BulkAddRecord", "_grist_Pages", ids,
+                            {"viewRef": [0] * n, "pagePos": [float(i) for i in ids], "indentation": [0] * n}]])
+            prefix.append([["BulkUpdateRecord", "_grist_Pages", list(perm),
+                            {"pagePos": [n + 1.0] * n, "indentation": list(inds)}]])
+            ck.count("eng2_order_by_moving")
+          if not all([run.setup(doc, b) for b in prefix]):
+            continue
+          if [p["id"] for p in page_rows(doc)] != list(perm):
+            ck.count("eng2_small_scope_order_not_as_requested")   # still judged, on the order read back
+          if len(gone) == 1 and rng.random() < 0.5:
+            bundle, kind = [["RemoveRecord", "_grist_Pages", gone[0]]], "RemoveRecord"
+          else:
+            bundle, kind = [["BulkRemoveRecord", "_grist_Pages", gone]], "BulkRemoveRecord"
+          run.judge(doc, bundle, {"steps": [sorted(gone)]}, "small_scope", kind, prefix=prefix)
+
+
+def rand_levels(rng, n):
+  cur, out = 0, []
+  for k in range(n):
+    cur = 0 if k == 0 else max(0, min(cur + rng.choice([-2, -1, 0, 1, 1, 1]), cur + 1))
+    out.append(cur)
+  return out
+
+
+def g_move(rng, rows):
+  """One user action that moves / re-indents pages the way the page-tree widget does."""
+  ids = [p["id"] for p in rows]
+  pos = dict((p["id"], p["pagePos"]) for p in rows)
+  ind = dict((p["id"], p["indentation"]) for p in rows)
+  k = rng.random()
+  if k < 0.3:        # drag one page before another page / to the end
+    x = rng.choice(ids)
+    tgt = rng.choice([i for i in ids if i != x] + [None])
+    return ["UpdateRecord", "_grist_Pages", x, {"pagePos": None if tgt is None else pos[tgt]}]
+  if k < 0.6:        # move a page under another parent: directly after it, one level deeper
+    x, par = rng.sample(ids, 2)
+    later = [i for i in ids[ids.index(par) + 1:] if i != x]
+    return ["UpdateRecord", "_grist_Pages", x,
+            {"pagePos": pos[later[0]] if later else None, "indentation": ind[par] + 1}]
+  if k < 0.8:        # move a group of pages (a subtree in the widget) to one place
+    grp = rng.sample(ids, rng.randint(2, min(3, len(ids))))
+    rest = [i for i in ids if i not in grp]
+    tgt = rng.choice(rest + [None])
+    base = rng.randint(0, 2)
+    return ["BulkUpdateRecord", "_grist_Pages", grp,
+            {"pagePos": [None if tgt is None else pos[tgt]] * len(grp),
+             "indentation": [base] + [base + rng.randint(0, 1) for _ in grp[1:]]}]
+  x = rng.choice(ids)  # explicit position between two neighbours
+  rest = [i for i in ids if i != x]
+  j = rng.randrange(len(rest))
+  lo = pos[rest[j - 1]] if j > 0 else pos[rest[0]] - 1.0
+  return ["UpdateRecord", "_grist_Pages", x, {"pagePos": (lo + pos[rest[j]]) / 2.0}]
+
+
+def random_docs(run):
+  """Documents with tables / extra views / view-less pages; pages moved around and re-indented,
+  then removed through every public route, several rounds per document."""
+  ck, rng = run.ck, run.ck.rng
+  for _ in range(30 if ck.tier == "quick" else 500):
+    doc = run.ed.Doc()
+    nt = rng.randint(3, 5)
+    for i in range(nt):
+      run.setup(doc, [["AddTable", "P%d" % i, COL]])
+    for _k in range(rng.choice([0, 0, 1, 1, 2])):
+      if rng.random() < 0.5:    # second page (own view) for an existing table
+        run.setup(doc, [["AddView", "P%d" % rng.randrange(nt), "raw_data", "more"]])
+      else:                     # page record added out of order, for an existing view or for none
+        rows = page_rows(doc)
+        run.setup(doc, [["AddRecord", "_grist_Pages", None,
+                         {"viewRef": rng.choice([0, rng.choice(rows)["viewRef"]]),
+                          "pagePos": rng.choice(rows)["pagePos"], "indentation": rng.randint(0, 2)}]])
+    for _round in range(rng.randint(2, 4)):
+      rows = page_rows(doc)
+      if len(rows) < 2:
+        break
+      for _m in range(rng.randint(1, 3)):
+        run.setup(doc, [g_move(rng, page_rows(doc))])
+        ck.count("eng2_move_actions")
+      rows = page_rows(doc)
+      ids = [p["id"] for p in rows]
+      style = rng.random()
+      if style < 0.7:          # a valid tree along the displayed order
+        sh = list(zip(ids, rand_levels(rng, len(ids))))
+        rng.shuffle(sh)
+        run.setup(doc, [["BulkUpdateRecord", "_grist_Pages", [i for i, _ in sh], {"indentation": [n for _, n in sh]}]])
+      elif style < 0.85:       # arbitrary levels
+        run.setup(doc, [["BulkUpdateRecord", "_grist_Pages", ids,
+                         {"indentation": [rng.randint(0, 4) for _ in ids]}]])
+      rows = page_rows(doc)
+      ids = [p["id"] for p in rows]
+      views = sorted(set(p["viewRef"] for p in rows if p["viewRef"]))
+      tabs = doc.user_tables()
+      k = rng.random()
+      if k < 0.2:
+        x = rng.choice(ids)
+        bundle, req, kind = [["RemoveRecord", "_grist_Pages", x]], {"steps": [[x]]}, "RemoveRecord"
+      elif k < 0.4:
+        gone = rng.sample(ids, rng.randint(1, max(1, len(ids) // 2)))
+        bundle, req, kind = [["BulkRemoveRecord", "_grist_Pages", gone]], {"steps": [sorted(gone)]}, "BulkRemoveRecord"
+      elif k < 0.5 and len(ids) >= 3:
+        gone = rng.sample(ids, rng.randint(2, min(3, len(ids) - 1)))
+        bundle = [["RemoveRecord", "_grist_Pages", gone[0]], ["BulkRemoveRecord", "_grist_Pages", gone[1:]]]
+        req, kind = {"steps": [[gone[0]], sorted(gone[1:])]}, "two_removals_in_one_bundle"
+      elif k < 0.65 and views:
+        v = rng.choice(views)
+        bundle, req, kind = [["RemoveView", v]], {"views": [v]}, "RemoveView"
+      elif k < 0.8 and views:
+        vs = rng.sample(views, rng.randint(1, min(2, len(views))))
+        if len(vs) == 1:
+          bundle = [["RemoveRecord", "_grist_Views", vs[0]]]
+        else:
+          bundle = [["BulkRemoveRecord", "_grist_Views", vs]]
+        req, kind = {"views": vs}, "RemoveRecord_on_Views"
+      elif tabs:
+        t = rng.choice(tabs)
+        bundle, req, kind = [["RemoveTable", t]], {"table": t}, "RemoveTable"
+      else:
+        continue
+      run.judge(doc, bundle, req, "random_docs", kind)
+
+
+def engine_reordered(ck, ed):
+  run = EngineRun(ck, ed)
+  witnesses(run)
+  small_scope(run)
+  random_docs(run)
+  run.tie_model()
+  if run.setup_rejected and not ck.violations:
+    # well-formed moves / re-indents / additions are never rejected by the engine as it is: the
+    # scenarios were not the intended ones, which is not a verdict about C36
+    from gx.common import Infra
+    raise Infra("C36 engine-level set-up bundle rejected: %r -> %r" % run.setup_rejected)
+
+
+def replay_engine(ck, e):
+  """Rebuild the state from a fresh document, apply the last bundle and judge it again."""
+  from gx import engine_driver as ed
+  own_init = bool(e["bundles"]) and e["bundles"][0] == [["InitNewDoc"]]   # histories start with it
+  doc = ed.Doc(init=not own_init)
+  for b in e["bundles"][:-1]:
+    r = doc.apply(b)
+    if not r.ok:
+      print("replay: set-up bundle %r rejected: %r" % (b, r.error))
+  run = EngineRun(ck, ed)
+  before = short(page_rows(doc))
+  after = run.judge(doc, e["bundles"][-1], e["req"], "replay", e.get("kind", "replay"), prefix=e["bundles"][:-1],
+                    expect=e.get("expect"))
+  print("replay: pages (pagePos order) %r, %r -> %r: %s" % (
+    before, e["bundles"][-1], None if after is None else short(after),
+    "PROPERTY VIOLATED" if ck.violations else "property holds"))
+  ck.nontrivial_case("replay")
 
 
 def replay(ck, rp):
   import treeview
   r = rp["replay"]
+  if isinstance(r, dict) and "engine" not in r and "before" in r and "removed" in r:
+    # replay object of engine_driver.c36_pages (pages in row-id order): same pages in a page-only document
+    ids = [i for i, _ in r["before"]]
+    r = {"engine": {"bundles": [[["BulkAddRecord", "_grist_Pages", ids,
+                                  {"viewRef": [0] * len(ids), "pagePos": [float(k + 1) for k in range(len(ids))],
+                                   "indentation": [n for _, n in r["before"]]}]],
+                                [["BulkRemoveRecord", "_grist_Pages", list(r["removed"])]]],
+                    "req": {"steps": [sorted(r["removed"])]}, "kind": "BulkRemoveRecord"}}
+  if isinstance(r, dict) and "engine" in r:
+    replay_engine(ck, r["engine"])
+    ck.lean(["GristProps.C36"])
+    return
   items, deleted = [tuple(x) for x in r["items"]], r["deleted"]
   adj = [tuple(a) for a in treeview.fix_indents([Item(i, n) for i, n in items], set(deleted))]
   ck.evaluated()
